@@ -160,9 +160,16 @@ static void run(const vf::Args& a, vf::Evidence& ev, vf::Reporter& rep) {
     if (nlo < refcal::kI64Min) nlo = refcal::kI64Min;
     if (nhi > refcal::kI64Max) nhi = refcal::kI64Max;
     static const int64_t next_unit[6] = {60, 60, 24, 31, 12, 400};
-    int style = *vf::range<int>(0, 5);
+    int style = *vf::range<int>(0, 6);
     i128 n;
     switch (style) {
+      case 6: {
+        // whole 400-year cycles plus or minus a little: k * (units per 400 years) + a few higher units + a few units
+        static const i128 cycle[6] = {(i128)146097 * 86400, (i128)146097 * 1440, (i128)146097 * 24, 146097, 4800, 400};
+        n = (i128)*rc::gen::element<int64_t>(-3, -2, -1, -1, 1, 1, 2, 3) * cycle[in.a] + (i128)*vf::range<int64_t>(-40, 40) * next_unit[in.a] +
+            *vf::range<int64_t>(-(next_unit[in.a] - 1), next_unit[in.a] - 1);
+        break;
+      }
       case 0: n = *vf::range<int64_t>(-70, 70); break;
       case 1: n = (i128)*vf::range<int64_t>(-5000, 5000) * next_unit[in.a] + *vf::range<int64_t>(-1, 1); break;
       case 2: n = *vf::edge_i64(); break;
@@ -177,7 +184,7 @@ static void run(const vf::Args& a, vf::Evidence& ev, vf::Reporter& rep) {
     if (n < nlo) n = nlo;
     if (n > nhi) n = nhi;
     in.n = (int64_t)n;
-    static const char* sn[] = {"n_small", "n_next_unit_multiple", "n_edge_i64", "n_at_low_edge", "n_at_high_edge", "n_uniform"};
+    static const char* sn[] = {"n_small", "n_next_unit_multiple", "n_edge_i64", "n_at_low_edge", "n_at_high_edge", "n_uniform", "n_whole_400y_cycles_plus_a_little"};
     ev.cls(sn[style]);
     ev.cls(std::string("align_") + cu::align_name(in.a));
     if (in.n == INT64_MIN) ev.cls("n_is_INT64_MIN");
